@@ -42,8 +42,8 @@ MIN_COUNTERS = {
               'ok_blocks_checked': 1500, 'failed_blocks_checked': 1000,
               'rt_histories': 100, 'multi_client_histories': 150,
               'oracle_selftests': 1},
-    'thorough': {'ops_compared': 2_000_000, 'messages_grammar_checked': 2_000_000,
-                 'id_mentions_checked': 2_000_000, 'ledger_checks': 2_000_000,
+    'thorough': {'ops_compared': 1_500_000, 'messages_grammar_checked': 1_500_000,
+                 'id_mentions_checked': 1_500_000, 'ledger_checks': 1_500_000,
                  'ok_blocks_checked': 30000, 'failed_blocks_checked': 20000,
                  'rt_histories': 1000, 'multi_client_histories': 5000,
                  'oracle_selftests': 1},
